@@ -221,7 +221,7 @@ def fieldPipeline : Field → Rat → Profile → Outcome
   | .longMetricCount, v, _ => if cnt v ≤ 65535 then .ok (cnt v : Int) else .err
   | .countU16, v, _ => .ok (wrapU16 (cnt v) : Int)
   | .endPt, v, p => subU16 p (wrapU16 (cnt v)) 1
-  | .numContours, v, _ => if cnt v < 32767 then .ok (cnt v : Int) else .panic
+  | .numContours, v, _ => if cnt v ≤ 32766 then .ok (cnt v : Int) else .panic   -- `len < i16::MAX`
   | .compositeTotal, v, p => addU16 p 0 (cnt v)
 
 /-- The value the field is MEANT to carry: the format's own rounding rule applied to the source value, in
@@ -244,7 +244,7 @@ def Representable : Field → Rat → Prop
   | .comp2x2, v => -2 ≤ v ∧ roundHalfAway (v * 16384) ≤ 32767
   | .glyphCount, v | .longMetricCount, v | .countU16, v | .compositeTotal, v => cnt v ≤ 65535
   | .endPt, v => 1 ≤ cnt v ∧ cnt v ≤ 65535
-  | .numContours, v => cnt v < 32767
+  | .numContours, v => cnt v ≤ 32766
 
 instance (f : Field) (v : Rat) : Decidable (Representable f v) := by
   cases f <;> unfold Representable <;> infer_instance
